@@ -1,7 +1,7 @@
 #!/bin/sh
 # usage: tools/mutant.sh <patch.diff> <property id>...   - apply a seeded change to /repo, run the
 # quick checks, undo it straight afterwards.  Prints one line per check: <id> exit=<code>.
-patch="$1"; shift
+patch="$(readlink -f "$1")"; shift
 cd /repo || exit 2
 if ! git diff --quiet; then echo "/repo has uncommitted changes"; exit 2; fi
 if git apply --check "$patch" 2>/dev/null; then git apply "$patch"; elif git apply -3 "$patch" 2>/dev/null; then git reset -q; else echo "patch does not apply: $patch"; exit 3; fi
